@@ -208,20 +208,18 @@ fn encode_attr(name: &str, a: &Attr) -> Vec<u8> {
             f_bytes(&mut o, 6, &g.encode());
             f_i64(&mut o, 20, 5);
         }
+        // onnx.proto is proto2: repeated scalar attribute fields are NOT packed, and
+        // rten-onnx's AttributeProto decoder only accepts the unpacked encoding.
         Attr::Floats(v) => {
-            let mut p = Vec::new();
             for x in v {
-                p.extend_from_slice(&x.to_le_bytes());
+                f_f32(&mut o, 7, *x);
             }
-            f_bytes(&mut o, 7, &p);
             f_i64(&mut o, 20, 6);
         }
         Attr::Ints(v) => {
-            let mut p = Vec::new();
             for x in v {
-                varint(&mut p, *x as u64);
+                f_i64(&mut o, 8, *x);
             }
-            f_bytes(&mut o, 8, &p);
             f_i64(&mut o, 20, 7);
         }
         Attr::Strs(v) => {
